@@ -630,6 +630,97 @@ fn run_builder_case(cx: &Ctx, builder: &str, n: usize) {
     check_frame(cx, &format!("values:{builder}:execute"), &ex, p::opcode::EXECUTE, &Request::Execute { id: vec![1, 2], result_metadata_id: None, params: want_params }, false, Comp::None, 2, false, &case);
 }
 
+const MARKER_BUILDERS: [&str; 10] = ["vec", "slice", "boxed-vec", "ref-vec", "hashmap-string", "hashmap-str", "btreemap-string", "btreemap-str", "tuple", "batch-adapter"];
+
+/// `v` values bound against a statement with `m` bind markers: refusal unless m == v, in which case the frame
+/// carries exactly the bound values in order (no silent dropping of surplus values, no padding).
+fn run_marker_case(cx: &Ctx, builder: &str, m: usize, v: usize) {
+    use scylla_cql::frame::response::result::{ColumnSpec, TableSpec};
+    use scylla_cql::serialize::raw_batch::RawBatchValuesAdapter;
+    use scylla_cql::serialize::row::RowSerializationContext;
+    use std::collections::BTreeMap;
+    const NAMES: [&str; 7] = ["c0", "c1", "c2", "c3", "c4", "c5", "c6"];
+    let r = cx.r;
+    let case = json!({"leg":"markers","builder":builder,"markers":m,"values":v});
+    let specs: Vec<ColumnSpec> = (0..m).map(|i| ColumnSpec::borrowed(NAMES[i], int(), TableSpec::borrowed("ks", "t"))).collect();
+    let ctx = RowSerializationContext::from_specs(&specs);
+    let ints: Vec<i32> = (0..v as i32).map(|i| i + 100).collect();
+    let want: Vec<Val> = ints.iter().map(|i| Val::Bytes(i.to_be_bytes().to_vec())).collect();
+    r.eval(1);
+    r.counters.add("marker_count_cases", 1);
+    if builder == "batch-adapter" {
+        let vals = vec![ints.clone()];
+        let specs_per_stmt = [specs.as_slice()];
+        let ctxs = specs_per_stmt.iter().map(|s| RowSerializationContext::from_specs(s));
+        let b = Batch { statements: Cow::Owned(vec![BatchStatement::Prepared { id: Cow::Borrowed(&[9u8][..]) }]), batch_type: BatchType::Logged, consistency: Consistency::One, serial_consistency: None, timestamp: None, values: RawBatchValuesAdapter::new(&vals, ctxs) };
+        match catch(std::panic::AssertUnwindSafe(|| SerializedRequest::make(&b, None, false))) {
+            Err(pn) => r.violation(&format!("markers:{builder}:panic"), &pn, case),
+            Ok(Err(_)) if m != v => r.nontrivial(1),
+            Ok(Err(e)) => r.violation(&format!("markers:{builder}:refused-valid"), &format!("{v} values for {m} markers refused: {e}"), case),
+            Ok(Ok(sr)) => {
+                let want_req = Request::Batch { batch_type: 0, statements: vec![(BatchStmt::Prepared(vec![9]), want.clone())], consistency: 1, flags: 0, serial_consistency: None, timestamp: None };
+                match p::parse_request_frame(sr.get_data(), Comp::None, false) {
+                    Ok(f) if f.request == want_req && m == v => r.nontrivial(1),
+                    Ok(f) => {
+                        let got = match &f.request {
+                            Request::Batch { statements, .. } => statements.first().map(|s| s.1.len()).unwrap_or(0),
+                            _ => 0,
+                        };
+                        r.violation(&format!("markers:{builder}:count-mismatch-accepted"), &format!("{v} values bound to a statement with {m} markers: accepted, the BATCH frame carries {got} values"), case)
+                    }
+                    Err(e) => r.violation(&format!("markers:{builder}:unfaithful-frame"), &e, case),
+                }
+            }
+        }
+        return;
+    }
+    let built: Result<Result<SerializedValues, String>, String> = catch(std::panic::AssertUnwindSafe(|| -> Result<SerializedValues, String> {
+        let e = |x: scylla_cql::serialize::SerializationError| x.to_string();
+        match builder {
+            "vec" => SerializedValues::from_serializable(&ctx, &ints).map_err(e),
+            "slice" => SerializedValues::from_serializable(&ctx, &ints.as_slice()).map_err(e),
+            "boxed-vec" => SerializedValues::from_serializable(&ctx, &Box::new(ints.clone())).map_err(e),
+            "ref-vec" => SerializedValues::from_serializable(&ctx, &&ints).map_err(e),
+            "hashmap-string" => SerializedValues::from_serializable(&ctx, &(0..v).map(|i| (NAMES[i].to_string(), ints[i])).collect::<HashMap<String, i32>>()).map_err(e),
+            "hashmap-str" => SerializedValues::from_serializable(&ctx, &(0..v).map(|i| (NAMES[i], ints[i])).collect::<HashMap<&str, i32>>()).map_err(e),
+            "btreemap-string" => SerializedValues::from_serializable(&ctx, &(0..v).map(|i| (NAMES[i].to_string(), ints[i])).collect::<BTreeMap<String, i32>>()).map_err(e),
+            "btreemap-str" => SerializedValues::from_serializable(&ctx, &(0..v).map(|i| (NAMES[i], ints[i])).collect::<BTreeMap<&str, i32>>()).map_err(e),
+            _ => match v {
+                0 => SerializedValues::from_serializable(&ctx, &()).map_err(e),
+                1 => SerializedValues::from_serializable(&ctx, &(ints[0],)).map_err(e),
+                2 => SerializedValues::from_serializable(&ctx, &(ints[0], ints[1])).map_err(e),
+                3 => SerializedValues::from_serializable(&ctx, &(ints[0], ints[1], ints[2])).map_err(e),
+                4 => SerializedValues::from_serializable(&ctx, &(ints[0], ints[1], ints[2], ints[3])).map_err(e),
+                5 => SerializedValues::from_serializable(&ctx, &(ints[0], ints[1], ints[2], ints[3], ints[4])).map_err(e),
+                _ => SerializedValues::from_serializable(&ctx, &(ints[0], ints[1], ints[2], ints[3], ints[4], ints[5])).map_err(e),
+            },
+        }
+    }));
+    let sv = match built {
+        Err(pn) => return r.violation(&format!("markers:{builder}:panic"), &pn, case),
+        Ok(Err(e)) => {
+            if m == v {
+                r.violation(&format!("markers:{builder}:refused-valid"), &format!("{v} values for {m} markers refused: {e}"), case);
+            } else {
+                r.counters.add("marker_count_mismatches_refused", 1);
+                r.nontrivial(1);
+            }
+            return;
+        }
+        Ok(Ok(sv)) => sv,
+    };
+    // accepted: the frame has to carry exactly what was bound - which is only possible when the counts agree
+    let got: Vec<Val> = sv.iter().map(|rv| match rv.as_value() { Some(b) => Val::Bytes(b.to_vec()), None => Val::Null }).collect();
+    if m != v || got != want || sv.element_count() as usize != v {
+        return r.violation(&format!("markers:{builder}:count-mismatch-accepted"), &format!("{v} values bound to a statement with {m} markers: accepted, the value list carries {} values ({} announced)", got.len(), sv.element_count()), case);
+    }
+    let want_params = QueryParams { consistency: 1, flags: if v > 0 { 1 } else { 0 }, values: (v > 0).then(|| want.clone()), skip_metadata: false, page_size: None, paging_state: None, serial_consistency: None, timestamp: None };
+    let ex = ExecuteV2 { id: CowBytes::Borrowed(&[1, 2]), result_metadata_id: None, parameters: QueryParameters { consistency: Consistency::One, values: Cow::Borrowed(&sv), ..Default::default() } };
+    check_frame(cx, &format!("markers:{builder}:execute"), &ex, p::opcode::EXECUTE, &Request::Execute { id: vec![1, 2], result_metadata_id: None, params: want_params.clone() }, false, Comp::None, 2, false, &case);
+    let q = Query { contents: Cow::Borrowed("q"), parameters: QueryParameters { consistency: Consistency::One, values: Cow::Borrowed(&sv), ..Default::default() } };
+    check_frame(cx, &format!("markers:{builder}:query"), &q, p::opcode::QUERY, &Request::Query { text: "q".into(), params: want_params }, false, Comp::Snappy, 1, false, &case);
+}
+
 fn value_builders(cx: &Ctx, jobs: usize) {
     let mut work: Vec<(&'static str, usize)> = Vec::new();
     for n in BOUNDARY_COUNTS {
@@ -638,6 +729,13 @@ fn value_builders(cx: &Ctx, jobs: usize) {
         }
     }
     vcore::par::for_each(jobs, 1, work.into_iter(), |(b, n)| run_builder_case(cx, b, n));
+    for b in MARKER_BUILDERS {
+        for m in 0..=4usize {
+            for v in 0..=6usize {
+                run_marker_case(cx, b, m, v);
+            }
+        }
+    }
 }
 
 // ---------------------------------------------------------------------------------------------
@@ -1083,6 +1181,7 @@ fn replay(cx: &Ctx, case: &Value) {
     match case["leg"].as_str() {
         Some("qe") => run_qcase(cx, QCase::from_json(case)),
         Some("values") => run_builder_case(cx, BUILDERS.iter().find(|b| Some(**b) == case["builder"].as_str()).copied().unwrap_or("vec"), case["n"].as_u64().unwrap_or(0) as usize),
+        Some("markers") => run_marker_case(cx, MARKER_BUILDERS.iter().find(|b| Some(**b) == case["builder"].as_str()).copied().unwrap_or("vec"), case["markers"].as_u64().unwrap_or(0) as usize, case["values"].as_u64().unwrap_or(0) as usize),
         Some("batch") => run_bcase(cx, &BCase::from_json(case)),
         Some("batch-adapter") => run_bcase_adapter(cx, &BCase::from_json(case)),
         Some("batch-boundary") => batch_boundaries(cx),
@@ -1133,7 +1232,7 @@ fn main() {
         vcore::machinery_error(&format!("vacuity: expected all 64/64/4 flag bytes to be produced, saw {q_flags}/{e_flags}/{b_flags}"));
     }
     drop(cx);
-    r.set_rule("E-ENUM. QUERY and EXECUTE (ExecuteV2 with/without result-metadata id; deprecated Execute): all 64 subsets of {values, skip_metadata, page size, paging state, serial consistency, timestamp} x value lists {1 and 2 values over value/null/unset, 65535 values, empty+70000-byte value} x all 11 consistencies x texts {0,1,multi-byte,65535,65536 bytes} / ids {0,1,16,65535 bytes} x tracing x {none,LZ4,Snappy}; field contents (page size, paging state, serial, timestamp, stream id) rotate through boundary alphabets (thorough: 5 rotations each, all consistencies for the huge shapes; quick: huge shapes at 3 consistencies). BATCH: 3 types x every 0..3-statement mix of prepared/unprepared x {0,1,2 values} per statement x {equal, one fewer, one more value lists -> refused} x 4 optional-field subsets x 11 consistencies (thorough: x tracing x compression; quick: rotating); 65535 statements accepted, 65536 refused; every BATCH shape both with pre-serialized value lists and through RawBatchValuesAdapter (typed BatchValues + serialization contexts). Value lists of {0,1,65534,65535,65536,65537,131071,131072} values through every public builder (SerializeRow for Vec / slice / Box / & / HashMap and BTreeMap with String and &str keys via from_serializable, from_closure with cell writers and with appended pre-built rows, add_value loop, null/unset cells, BATCH through RawBatchValuesAdapter and through pre-serialized lists): refusal, or announced count == encoded cells == bound values in the QUERY, EXECUTE and BATCH frames. PREPARE, STARTUP (incl. 65535-byte keys, 65535 options; 65536 refused), REGISTER (all subsets, both structs), OPTIONS, AUTH_RESPONSE (null/empty/short/70000 bytes). Thorough adds > 2 GiB strings/bytes (must be errors). Oracle: header (version 4, opcode, stream, flags == options used, length == body size), body parsed by cqlref::proto equals the request in order, compressed body decompresses (cqlref's own LZ4/Snappy decoders) to the uncompressed serialization. distinct_nontrivial = frames with >= 2 optional fields or compression, multi-statement batches, refusals, small requests.");
+    r.set_rule("E-ENUM. QUERY and EXECUTE (ExecuteV2 with/without result-metadata id; deprecated Execute): all 64 subsets of {values, skip_metadata, page size, paging state, serial consistency, timestamp} x value lists {1 and 2 values over value/null/unset, 65535 values, empty+70000-byte value} x all 11 consistencies x texts {0,1,multi-byte,65535,65536 bytes} / ids {0,1,16,65535 bytes} x tracing x {none,LZ4,Snappy}; field contents (page size, paging state, serial, timestamp, stream id) rotate through boundary alphabets (thorough: 5 rotations each, all consistencies for the huge shapes; quick: huge shapes at 3 consistencies). BATCH: 3 types x every 0..3-statement mix of prepared/unprepared x {0,1,2 values} per statement x {equal, one fewer, one more value lists -> refused} x 4 optional-field subsets x 11 consistencies (thorough: x tracing x compression; quick: rotating); 65535 statements accepted, 65536 refused; every BATCH shape both with pre-serialized value lists and through RawBatchValuesAdapter (typed BatchValues + serialization contexts). Value lists of {0,1,65534,65535,65536,65537,131071,131072} values through every public builder (SerializeRow for Vec / slice / Box / & / HashMap and BTreeMap with String and &str keys via from_serializable, from_closure with cell writers and with appended pre-built rows, add_value loop, null/unset cells, BATCH through RawBatchValuesAdapter and through pre-serialized lists): refusal, or announced count == encoded cells == bound values in the QUERY, EXECUTE and BATCH frames. Bind-marker count vs value count: 0..4 markers x 0..6 values through Vec / slice / Box / & / HashMap / BTreeMap (String and &str keys) / tuples / RawBatchValuesAdapter: refusal unless the counts agree, then exactly the bound values in order. PREPARE, STARTUP (incl. 65535-byte keys, 65535 options; 65536 refused), REGISTER (all subsets, both structs), OPTIONS, AUTH_RESPONSE (null/empty/short/70000 bytes). Thorough adds > 2 GiB strings/bytes (must be errors). Oracle: header (version 4, opcode, stream, flags == options used, length == body size), body parsed by cqlref::proto equals the request in order, compressed body decompresses (cqlref's own LZ4/Snappy decoders) to the uncompressed serialization. distinct_nontrivial = frames with >= 2 optional fields or compression, multi-statement batches, refusals, small requests.");
     r.set_exhaustive(true);
     r.sample(json!({"leg":"qe","kind":0,"subset":63,"vals":7,"cons":6,"text":2,"tracing":true,"comp":1,"meaning":"QUERY with all six optional fields, two values (null, value), LOCAL_QUORUM, LZ4, tracing"}));
     r.sample(json!({"leg":"batch","btype":0,"stmts":[[false,1],[true,2]],"count_mode":1,"meaning":"2 statements, 1 value list: must be refused"}));
